@@ -32,6 +32,14 @@ func formatCommentCharacter(comment string, char rune) string {
 	// Sharp-style comment
 	switch bs[0] {
 	case '#':
+		// Fastly macro like "#FASTLY RECV" must be kept as it is
+		if strings.HasPrefix(comment, "#FASTLY") {
+			return comment
+		}
+		// A single sharp corresponds to double slashes, single slash is not a comment
+		if char == '/' && (len(bs) < 2 || bs[1] != '#') {
+			return "//" + string(bs[1:])
+		}
 		for i := range bs {
 			if bs[i] != '#' {
 				break
